@@ -14,7 +14,7 @@ TARGETS_CHECK = ["theories/Check/C01o.vo", "theories/Check/C01.vo"]
 TARGETS_PROP = ["theories/Properties/C01.vo"]
 SHARD = 400
 PRELUDE = "Open Scope string_scope.\n"
-RULE = ("8 fixed corner shapes + 44 (quick) / 600 (thorough) random struct shapes generated as Go source from VERIF_SEED (as C03); per "
+RULE = ("8 fixed corner shapes + 44 (quick) / 600 (thorough) random struct shapes + 4 fixed and 4 / 54 random homonym shapes generated as Go source from VERIF_SEED (as C03); per "
         "shape every type of a field stored inside the struct is focused through ForProduct1 and ForSpectrum1, by type and by a name "
         "of a field of that type, plus random N-tuples (N=2..9, incl. equal types in adjacent positions) through ForProductN / "
         "ForSpectrumN; each derived optic is exercised on a copy of the shape's arena (64-byte guard, struct filled with typed random "
